@@ -26,7 +26,7 @@ def generate(tier, seed):
     for name in sources.PROTEINS:
         for k in range(2 if tier == "quick" else 24):
             cases.append({"kind": "file", "file": name, "seed": "%d:%s:%d" % (seed, name, k), "cost": 300})
-    n = 300 if tier == "quick" else 4000
+    n = 300 if tier == "quick" else 20000
     for k in range(n):
         cases.append({"kind": "built", "seed": "%d:b:%d" % (seed, k), "cost": 40})
     return cases
